@@ -453,6 +453,11 @@ class UAlg(_Alg):
         if op == "+":
             if exact_int:
                 return SymNum(a.t + b.t, k)
+            # IEEE: 0 + x == x (up to the sign of a zero result, which no comparison observes)
+            if _is_zero(a.t):
+                return SymNum(b.t, k)
+            if _is_zero(b.t):
+                return SymNum(a.t, k)
             x, y = _order(a.t, b.t)
             return SymNum(_fadd(x, y), k)
         if op == "-":
@@ -484,6 +489,10 @@ class UAlg(_Alg):
     def fn(self, name, a):
         a = SymNum.lift(a)
         return SymNum(self._F[name](a.t), KFLOAT)
+
+
+def _is_zero(t):
+    return z3.is_rational_value(t) and t.numerator_as_long() == 0
 
 
 def _is_one(t):
